@@ -44,10 +44,34 @@ class FwdSchema(CustomSchema[FwdProps]):
         return self.__class__(self.props.update(inner=res))
 
 
+class FwdChild(FwdSchema):
+    """Inherits every hook from FwdSchema."""
+
+
+class _Hooks:
+    """Hooks supplied by a mixin."""
+    __rv_inner__ = FwdSchema.__rv_inner__
+    __represent__ = FwdSchema.__represent__
+    __generate__ = FwdSchema.__generate__
+    __validate__ = FwdSchema.__validate__
+    __substitute__ = FwdSchema.__substitute__
+
+
+class FwdMixed(CustomSchema[FwdProps], _Hooks):
+    pass
+
+
 register_type("rv_fwd", FwdSchema)
+register_type("rv_fwd_child", FwdChild)
+register_type("rv_fwd_mixed", FwdMixed)
+VARIANTS = (FwdSchema, FwdSchema, FwdChild, FwdMixed)
+_counter = [0]
 
 
 def wrap(schema, n=1):
+    """Wrap n times; the forwarding class rotates deterministically (own hooks / inherited / from a mixin)."""
     for _ in range(n):
-        schema = FwdSchema(FwdProps().update(inner=schema))
+        cls = VARIANTS[_counter[0] % len(VARIANTS)]
+        _counter[0] += 1
+        schema = cls(FwdProps().update(inner=schema))
     return schema
